@@ -26,6 +26,10 @@ class InjectedStopIteration(StopIteration):
     map() / generators swallow it silently if the target is called from inside one"""
 
 
+class InjectedLinAlgError(np.linalg.LinAlgError):
+    """a target failing with numpy's LinAlgError: handlers meant for GP failures must not swallow it"""
+
+
 class InjectedTargetError2(Exception):
     """an exception type whose constructor needs two positional arguments
     (like subprocess.CalledProcessError): it cannot be re-created from a message"""
@@ -110,6 +114,8 @@ class Recorder:
             raise InjectedTargetError("injected target failure at call %d" % n)
         if fk == "exception3":
             raise InjectedStopIteration("injected target failure at call %d" % n)
+        if fk == "exception4":
+            raise InjectedLinAlgError("injected target failure at call %d" % n)
         if fk == "exception2":
             rec["fault"] = fk
             raise InjectedTargetError2(n, "injected target failure")
